@@ -5,7 +5,10 @@
                         4 RTCP write, 5 close, 6 counts, 7 injection replay, 8 aliasing, 9 teardown
                         history, 10 the Close error entry by entry
      c01_spec_failures  specification oracle on the IMPLEMENTATION's outputs (round 4: 7 a written
-                        packet reached another binding's next writer, 77-79 Close errors lost / made up) *)
+                        packet reached another binding's next writer, 77-79 Close errors lost / made up)
+   Round 5: every binding of a local stream has the configuration of ITS StreamInfo (negotiated
+   transport-cc ID, nack feedback): the model instantiates the members per binding (run_wops_c), the
+   oracle judges every Write with the transport-cc ID of the binding it went through (wops_spec_b). *)
 From IV Require Import Base.Codes Proofs.TwccHdrExtProofs Check.C15Check.
 From IV Require Export Base.Word Model.TwccHdrExt Model.Chain Model.DumpLog Model.ChainTeardown Model.CloseErrs Model.Rebind.
 From IV Require Import Proofs.ChainProofs.
@@ -248,6 +251,37 @@ Fixpoint run_wops_b (cf : cfg) (ms : list member_desc) (tbl : list pkt) (ssrcs :
       (ok && ok', bsts')
   end.
 
+(* ---- every binding with the stream configuration of ITS StreamInfo (round 5) ----
+   The harness gives every further BindLocalStream a StreamInfo of its own: besides the SSRC, the
+   negotiated transport-cc header-extension ID (uint8 of it; 0 = not negotiated) and whether nack
+   feedback was negotiated may differ from the first stream's.  A Bind* closure captures what it
+   read from ITS StreamInfo (header-extension member: hdrExtID; responder: the stream filter's
+   verdict), so binding k is [chain_bind] over the members instantiated with configuration k.
+   [run_wops_c] is [run_wops_b] with a list of configurations instead of a list of SSRCs
+   (C01e_run_c_generalises_run_b). *)
+Definition bcfg := (Z * bool)%type.
+Definition with_bind (c : cfg) (s : Z) (b : bcfg) : cfg := let '(_, _, _, d, e, f) := c in (s, fst b, snd b, d, e, f).
+Fixpoint bind_cfgs (cf : cfg) (ssrcs : list Z) (bcs : list bcfg) : list cfg :=
+  match ssrcs with
+  | [] => []
+  | s :: tl => with_bind cf s (hd (c_sid cf, c_nack cf) bcs) :: bind_cfgs cf tl (List.tl bcs)
+  end.
+Fixpoint run_wops_c (cf : cfg) (ms : list member_desc) (tbl : list pkt) (cfs : list cfg)
+    (bsts : list (list (ws pkt))) (ops : list wop) (vias : list wvia) : bool * list (list (ws pkt)) :=
+  match ops with
+  | [] => (true, bsts)
+  | (pi, script, ocalls, ores) :: tl =>
+      let '(v, strays) := hd (0, []) vias in
+      let k := Z.to_nat v in
+      let cfk := nth k cfs cf in
+      let '((st', (_, log)), r) :=
+        chain_bind (map (wr_of cfk) ms) script_writer (tb tbl pi) (nth k bsts [], (script, [])) in
+      let ok := list_eqb pkt_eqb log (map (tb tbl) ocalls) && wres_eqb r ores &&
+                match strays with [] => true | _ => false end in
+      let '(ok', bsts') := run_wops_c cf ms tbl cfs (sync_at (rev (map fst ms)) k st' bsts) tl (List.tl vias) in
+      (ok && ok', bsts')
+  end.
+
 (* ---- Close ---- *)
 Inductive cm := CLeaf (e : Z) (* 0 = nil, else sentinel id *) | CChain (l : list cm).
 Fixpoint cm_err (c : cm) : option err :=
@@ -331,7 +365,7 @@ Definition iobs := (Z * Z * list Z)%type.
 Definition c01_case :=
   (cfg * list member_desc * list pkt * list wop * list rop * list rop * list wop
    * list cm * closeobs * list (Z * Z * Z) * list Z * list aobs * list iobs * list tdobs
-   * cerrobs * rbobs)%type.
+   * cerrobs * rbobs * list bcfg)%type.
 
 (* ---- injections: a member calling its own inner writer (chain_inject), replayed ---- *)
 Fixpoint run_injs (outer : list (wrapper pkt)) (tbl : list pkt) (sts : list (ws pkt)) (l : list iobs) : bool :=
@@ -383,9 +417,9 @@ Definition counts_ok (n : nat) (wsts : list (ws pkt)) (rsts : list (rs hdr)) (co
              if side =? 0 then w_ctr (nth pos wsts ws0) =? v else r_ctr (nth pos rsts rs0) =? v) counts.
 
 Definition c01_model_code (c : c01_case) : nat :=
-  let '(cf, ms, tbl, wops, rops, crops, cwops, cms, cobs, counts, _, aos, ios, tds, ceo, rb) := c in
+  let '(cf, ms, tbl, wops, rops, crops, cwops, cms, cobs, counts, _, aos, ios, tds, ceo, rb, bcs) := c in
   let '(ssrcs, vias, unb) := rb in
-  let '(okw, bsts) := run_wops_b cf ms tbl ssrcs (map (fun _ => init_ws ms) ssrcs) wops vias in
+  let '(okw, bsts) := run_wops_c cf ms tbl (bind_cfgs cf ssrcs bcs) (map (fun _ => init_ws ms) ssrcs) wops vias in
   let wsts := hd (init_ws ms) bsts in
   let '(okr, rsts) := run_rops (map (rd_of_u unb cf) ms) tbl (init_rs ms) rops in
   let '(okcr, _) := run_rops (map crd_of ms) tbl (init_rs ms) crops in
@@ -552,14 +586,36 @@ Definition close_mult_code (o : cerrobs) : nat :=
   if lost want got then 77%nat else if lost got want then 78%nat
   else if lost want lines || lost lines want then 79%nat else 0%nat.
 
+(* "only the documented transport-wide-CC header extension may be added": documented for the stream
+   the packet belongs to, i.e. under the ID the StreamInfo of the binding the Write went through
+   negotiated (round 5).  Every Write is judged with the configuration of ITS binding: scope (ID in
+   1..14) and the one extension ID that may differ between what was written and what arrived. *)
+Definition cfg_via (cf : cfg) (cfs : list cfg) (v : wvia) : cfg := nth (Z.to_nat (fst v)) cfs cf.
+Definition sid_of (has_twcc : bool) (c : cfg) : Z := if has_twcc then c_sid c else 0.
+Fixpoint wops_spec_b (has_twcc : bool) (cf : cfg) (cfs : list cfg) (tbl : list pkt) (ops : list wop) (vias : list wvia) : nat :=
+  match ops with
+  | [] => 0%nat
+  | o :: tl =>
+      let ck := cfg_via cf cfs (hd (0, []) vias) in
+      match wop_spec (sid_of has_twcc ck) ck false tbl o with
+      | O => wops_spec_b has_twcc cf cfs tbl tl (List.tl vias)
+      | c => c
+      end
+  end.
+(* the header+payload object of Write number op (aliasing kind 1) belongs to that Write's binding *)
+Definition alias_sid (has_twcc : bool) (cf : cfg) (cfs : list cfg) (vias : list wvia) (a : aobs) : Z :=
+  let '(kind, op, _, _, _) := a in
+  if kind =? 1 then sid_of has_twcc (cfg_via cf cfs (nth (Z.to_nat op) vias (0, []))) else sid_of has_twcc cf.
+
 Definition c01_spec_code (cs : c01_case) : nat :=
-  let '(cf, ms, tbl, wops, rops, crops, cwops, cms, cobs, counts, flags, aos, ios, tds, ceo, rb) := cs in
+  let '(cf, ms, tbl, wops, rops, crops, cwops, cms, cobs, counts, flags, aos, ios, tds, ceo, rb, bcs) := cs in
   let has_twcc := existsb (fun m => fst m =? 6) ms in
   let sid := if has_twcc then c_sid cf else 0 in
+  let cfs := bind_cfgs cf (fst (fst rb)) bcs in
   match first_code rb_code (snd (fst rb)) with
   | S k => S k
   | O =>
-  match first_code (wop_spec sid cf false tbl) wops with
+  match wops_spec_b has_twcc cf cfs tbl wops (snd (fst rb)) with
   | S k => S k
   | O =>
   match first_code (rop_spec cf false tbl) rops with
@@ -597,7 +653,7 @@ Definition c01_spec_code (cs : c01_case) : nat :=
       else if negb (nth 3 flags 0 =? 0) then 84%nat
       else match first_code (inj_code sid cf tbl) ios with
            | S k => S k
-           | O => first_code (alias_code sid tbl) aos
+           | O => first_code (fun a => alias_code (alias_sid has_twcc cf cfs (snd (fst rb)) a) tbl a) aos
            end
       end
     end
